@@ -76,6 +76,13 @@ Definition ops : list op := [
          | Some e => VB (PatSpec.ser_payload (PatSpec.mkS (zN f) h e c) rest)
          | None => vbad end
      | _ => vbad end);
+  (* pointer_field k, the k bytes before the section, then as pat.ser.payload *)
+  ("pat.ser.payload_pf", fun a => match a with
+     | [VI k; VB filler; VI f; VB h; VL es; VB c; VB rest] =>
+         match entries_of es with
+         | Some e => VB (PatSpec.ser_payload_pf (zN k) filler (PatSpec.mkS (zN f) h e c) rest)
+         | None => vbad end
+     | _ => vbad end);
   ("pat.ser.packet", fun a => match a with
      | [VI b; VI p; VI t; VI c; VL []; VB pay] => VB (PatSpec.ser_packet (PatSpec.mkH (zN b) (zN p) (zN t) (zN c)) None pay)
      | [VI b; VI p; VI t; VI c; VL [VB af]; VB pay] =>
